@@ -63,11 +63,53 @@ def content_bytes(kind, what, salt):
             obj = full
             obj.variants.variants.clear()
         return obj.dumps().encode("utf-8")
+    if what == "validlegacy":
+        # a pre-0.3 rpm manifest (payload/manifest, package type names, a src table): the legacy reader walks it with .items()/.get()
+        doc = json.loads(fmt7.build("rpms", random.Random("c20-%s" % salt)).dumps())
+        manifest = {}
+        for v, arches in doc["payload"].pop("rpms").items():
+            for a, srpms in arches.items():
+                for srpm, rpms_ in srpms.items():
+                    for nevra, d in rpms_.items():
+                        manifest.setdefault(v, {}).setdefault(a, {}).setdefault(srpm, {})[nevra] = {"path": d["path"], "sigkey": d["sigkey"], "type": "package"}
+                    manifest[v].setdefault("src", {})[srpm] = {"path": "%s/source/SRPMS/%s.rpm" % (v, srpm.replace("0:", "")), "sigkey": None, "type": "source"}
+        doc["payload"]["manifest"] = manifest
+        doc["header"] = {"version": "0.3"}
+        return json.dumps(doc, indent=1, sort_keys=True).encode("utf-8")
+    if what.startswith("corrupt|"):
+        # one INNER value of a valid document replaced by a value of another JSON type: corrupt|<base kind>|<pointer>|<json>
+        _, base, pointer, repl = what.split("|", 3)
+        doc = json.loads(content_bytes(kind, base, salt).decode("utf-8"))
+        node, keys = doc, json.loads(pointer)
+        for k in keys[:-1]:
+            node = node[k]
+        node[keys[-1]] = json.loads(repl)
+        return json.dumps(doc, indent=1, sort_keys=True).encode("utf-8")
     if what == "hdronly":
         return json.dumps({"header": {"version": "1.2", "type": HEADER_TYPE[kind]}}).encode()
     if what in ("payloadlist", "payloadstr"):
         return json.dumps({"header": {"version": "1.2", "type": HEADER_TYPE[kind]}, "payload": [] if what == "payloadlist" else "x"}).encode()
     return INVALID[what]
+
+
+REPLACEMENTS = ["null", "7", "\"x\"", "[]", "{}", "[1]", "{\"a\": 1}"]
+
+
+def inner_pointers(doc):
+    """paths (lists of keys/indices) of every value strictly below the root, parents before children"""
+    out = []
+
+    def rec(node, path):
+        items = node.items() if isinstance(node, dict) else enumerate(node) if isinstance(node, list) else []
+        for k, v in (sorted(items) if isinstance(node, dict) else items):
+            out.append((path + [k], v))
+            rec(v, path + [k])
+    rec(doc, [])
+    return out
+
+
+def json_type(v):
+    return "null" if v is None else "bool" if isinstance(v, bool) else "num" if isinstance(v, (int, float)) else "str" if isinstance(v, str) else "list" if isinstance(v, list) else "dict"
 
 
 def build_tree(root, layouts, seed):
@@ -189,6 +231,37 @@ class C20(Prop):
             for _ in range(2):
                 seq.insert(rng.randrange(1, len(seq)), "rm:" + rng.choice(KINDS))
             yield {"op": "tree", "args": {"layouts": {rng.choice(["", "compose", "1.0"]): files}, "slash": rng.random() < 0.5, "seed": 31000 + i, "accesses": seq}}
+        # E. well-formed JSON of the right OUTER shape with ONE inner value of the wrong type (null / number / string / list / dict):
+        #    systematic walk over a valid document of each file (and of a pre-0.3 rpm manifest); the loaders then fail in a subscript
+        #    (KeyError/TypeError), a method call on the foreign value (AttributeError: .keys/.get/.items/.lower) or a validator
+        combos_e = []
+        for name, base in (("composeinfo.json", "valid"), ("images.json", "valid"), ("rpms.json", "valid"), ("modules.json", "valid"), ("rpm-manifest.json", "validlegacy")):
+            k = KIND_OF_FILE[name]
+            doc = json.loads(content_bytes(k, base, "40000//%s" % name).decode("utf-8"))
+            for path, v in inner_pointers(doc):
+                for repl in REPLACEMENTS:
+                    if json_type(json.loads(repl)) != json_type(v) or (isinstance(v, (list, dict)) and v and repl in ("[]", "{}")):
+                        combos_e.append((name, base, path, repl))
+        notes = [("composeinfo.json", "valid", ["payload", "variants"], "null"), ("composeinfo.json", "valid", ["payload", "variants"], "[]"),
+                 ("composeinfo.json", "valid", ["payload", "release", "type"], "7"), ("composeinfo.json", "valid", ["payload", "variants", "V1"], "\"x\""),
+                 ("rpm-manifest.json", "validlegacy", ["payload", "manifest", "Server", "x86_64"], "[]"),
+                 ("rpm-manifest.json", "validlegacy", ["payload", "manifest", "Server", "ppc64le"], "[]")]
+        doc_ci = json.loads(content_bytes("info", "valid", "40000//composeinfo.json").decode("utf-8"))
+        first_variant = sorted(doc_ci["payload"]["variants"])[0]
+        notes = [(n, b, [first_variant if x == "V1" else x for x in pth], r) for n, b, pth, r in notes]
+        doc_im = json.loads(content_bytes("images", "valid", "40000//images.json").decode("utf-8"))
+        notes.append(("images.json", "valid", ["payload", "images", sorted(doc_im["payload"]["images"])[0]], "[1]"))      # finding F34
+        valid_ptrs = set((n, json.dumps(pth)) for n, b, pth, r in combos_e)
+        notes = [x for x in notes if (x[0], json.dumps(x[2])) in valid_ptrs]
+        if tier == "quick":
+            rng.shuffle(combos_e)
+            picked = notes + combos_e[:max(150, budget // 4)]
+        else:
+            picked = notes + combos_e
+        for i, (name, base, path, repl) in enumerate(picked):
+            what = "corrupt|%s|%s|%s" % (base, json.dumps(path), repl)
+            k = KIND_OF_FILE[name]
+            yield {"op": "tree", "args": {"layouts": {"": {name: what}}, "slash": i % 2 == 0, "seed": 40000, "accesses": [k, k]}}
         # C. invalid content: every kind of damage x every file name x layout
         i = 0
         for what in sorted(INVALID):
@@ -398,7 +471,7 @@ class C20(Prop):
                         sub = os.path.relpath(resolved, top) if resolved != top else ""
                         shape = layouts.get(sub if sub != "." else "", {}).get(os.path.basename(f))
                     return {"observed": {"access": k, "result": res, "file": f, "content": shape, "direct_load": ref},
-                            "required": want, "kind": "wrong-shape-not-runtime-error" if shape in WRONG_SHAPE else "undecodable-not-runtime-error"}
+                            "required": want, "kind": "wrong-shape-not-runtime-error" if (shape in WRONG_SHAPE or str(shape).startswith("corrupt|")) else "undecodable-not-runtime-error"}
         return None
 
     def nontrivial(self, case, real_out):
